@@ -81,7 +81,8 @@ Proof. unfold shutdown_run. destruct (u_shutdown u); [intros [<-|[]]; reflexivit
 Definition once_u (W : world) (f : func) (u : unit_) : Prop :=
   let cs := count_run RStartup (u_id u) (w_log W) in
   let cd := count_run RShutdown (u_id u) (w_log W) in
-  (cs = 0%nat \/ (cs = 1%nat /\ ~ In (f_gen f) (w_delayed W) /\ ~ In (u_id u) (w_pending W))) /\
+  (cs = 0%nat \/ (cs = 1%nat /\ ~ In (u_id u) (w_pending W) /\ (f_new f = false -> ~ In (f_gen f) (w_delayed W)) /\
+                  (f_new f = true -> In (u_id u) (w_running W) \/ ~ In (f_gen f) (w_active W)))) /\
   (In (u_id u) (w_running W) -> u_startup u = true -> cs = 1%nat) /\
   (In (f_gen f) (w_active W) -> cd = 0%nat) /\ (cd <= 1)%nat /\
   (f_new f = false -> ~ In (f_gen f) (w_active W) -> u_shutdown u = true -> cd = 1%nat).
@@ -101,19 +102,48 @@ Lemma once_u_transfer W W' f u : once_u W f u ->
   count_run RShutdown (u_id u) (w_log W') = count_run RShutdown (u_id u) (w_log W) ->
   (In (f_gen f) (w_delayed W') -> In (f_gen f) (w_delayed W)) ->
   (In (u_id u) (w_pending W') -> In (u_id u) (w_pending W)) ->
-  (In (u_id u) (w_running W') -> In (u_id u) (w_running W)) ->
+  (In (u_id u) (w_running W') <-> In (u_id u) (w_running W)) ->
   (In (f_gen f) (w_active W') <-> In (f_gen f) (w_active W)) ->
   once_u W' f u.
 Proof.
   unfold once_u. intros [A [B [C [D E]]]] ES ED HD HP HR HA. rewrite ES, ED. repeat split.
-  - destruct A as [A|[A1 [A2 A3]]]; [left; exact A|right]. split; [exact A1|split; [intros X; exact (A2 (HD X))|intros X; exact (A3 (HP X))]].
+  - destruct A as [A|[A1 [A2 [A3 A4]]]]; [left; exact A|right]. split; [exact A1|split; [intros X; exact (A2 (HP X))|split]].
+    + intros NF X. exact (A3 NF (HD X)).
+    + intros NF. destruct (A4 NF) as [X|X]; [left; apply HR; exact X|right; intros K; apply X; apply HA; exact K].
   - intros X Y. apply B; [apply HR; exact X|exact Y].
   - intros X. apply C. apply HA. exact X.
   - exact D.
   - intros X Y Z. apply E; [exact X| |exact Z]. intros K. apply Y. apply HA. exact K.
 Qed.
 
-(* ---- exact logs of the unit folds ---------------------------------------------------------------- *)
+Lemma other_func_ids W f f' u' : ids_ok W -> In f (w_funcs W) -> owns W f' u' -> f_gen f' <> f_gen f ->
+  ~ In (u_id u') (map u_id (f_units f)).
+Proof.
+  intros I Hf O' NG K. apply in_map_iff in K. destruct K as [u0 [E0 H0]].
+  destruct (io_uniq W I f u0 f' u' (conj Hf H0) O' E0) as [EF _]. apply NG. rewrite EF. reflexivity.
+Qed.
+
+Lemma same_once W W' : Once W -> w_log W' = w_log W -> w_funcs W' = w_funcs W -> w_next W <= w_next W' ->
+  w_active W' = w_active W -> w_delayed W' = w_delayed W -> w_pending W' = w_pending W -> w_running W' = w_running W -> Once W'.
+Proof.
+  intros [OL OU ON] E1 E2 E3 E4 E5 E6 E7. constructor.
+  - rewrite E1. intros r Hr. pose proof (OL r Hr). lia.
+  - intros f u O. unfold once_u. rewrite E1, E4, E5, E6, E7. apply OU. apply (owns_same W W' f u E2). exact O.
+  - rewrite E2. exact ON.
+Qed.
+
+(* ---- the runs a fold of unit stops appends --------------------------------------------------------- *)
+(* [sub_log rs us]: rs consists of shutdown runs of units of us, each unit contributing its shutdown run at most once *)
+Definition sub_log (rs : list run) (us : list unit_) : Prop :=
+  (forall k id, (count_run k id rs <= count_run k id (flat_map shutdown_run us))%nat) /\
+  (forall r, In r rs -> exists u, In u us /\ r_unit r = u_id u).
+
+Lemma sub_log_full us : sub_log (flat_map shutdown_run us) us.
+Proof.
+  split; [intros; lia|]. intros r Hr. apply in_flat_map in Hr. destruct Hr as [u [Hu Hr]]. exists u. split; [exact Hu|].
+  apply shutdown_run_unit. exact Hr.
+Qed.
+
 Lemma log_leg_unit_stop cfg W u : w_log (leg_unit_stop cfg W u) = w_log W ++ shutdown_run u.
 Proof.
   unfold leg_unit_stop. destruct (memn (u_id u) (w_pending W)).
@@ -125,464 +155,77 @@ Proof.
   induction us as [|a r IH]; intros W; cbn [fold_left flat_map]; [rewrite app_nil_r; reflexivity|].
   rewrite IH, log_leg_unit_stop, app_assoc. reflexivity.
 Qed.
-Lemma log_dec_unit_stop cfg W u : w_log (dec_unit_stop cfg W u) = w_log W ++ shutdown_run u.
-Proof. reflexivity. Qed.
-Lemma log_fold_dec_stop cfg us : forall W, w_log (fold_left (dec_unit_stop cfg) us W) = w_log W ++ flat_map shutdown_run us.
+Lemma log_fold_stop_running cfg us : forall W, exists rs,
+  w_log (fold_left (stop_if_running cfg) us W) = w_log W ++ rs /\ sub_log rs us.
 Proof.
-  induction us as [|a r IH]; intros W; cbn [fold_left flat_map]; [rewrite app_nil_r; reflexivity|].
-  rewrite IH, log_dec_unit_stop, app_assoc. reflexivity.
-Qed.
-
-Lemma dec_unit_start_fields W a :
-  w_log (dec_unit_start W a) = w_log W ++ startup_run a /\ w_pending (dec_unit_start W a) = w_pending W /\
-  w_delayed (dec_unit_start W a) = w_delayed W /\ w_active (dec_unit_start W a) = w_active W /\
-  w_funcs (dec_unit_start W a) = w_funcs W /\ w_next (dec_unit_start W a) = w_next W /\
-  w_running (dec_unit_start W a) = addn (u_id a) (w_running W).
-Proof. repeat split; reflexivity. Qed.
-Lemma leg_unit_start_fields W a :
-  w_log (leg_unit_start W a) = w_log W /\ w_running (leg_unit_start W a) = w_running W /\
-  w_delayed (leg_unit_start W a) = w_delayed W /\ w_active (leg_unit_start W a) = w_active W /\
-  w_funcs (leg_unit_start W a) = w_funcs W /\ w_next (leg_unit_start W a) = w_next W /\
-  w_pending (leg_unit_start W a) = addn (u_id a) (w_pending W).
-Proof. repeat split; reflexivity. Qed.
-
-Lemma fold_dec_start_status us : forall W,
-  w_log (fold_left dec_unit_start us W) = w_log W ++ flat_map startup_run us /\
-  w_pending (fold_left dec_unit_start us W) = w_pending W /\
-  w_delayed (fold_left dec_unit_start us W) = w_delayed W /\ w_active (fold_left dec_unit_start us W) = w_active W /\
-  w_funcs (fold_left dec_unit_start us W) = w_funcs W /\ w_next (fold_left dec_unit_start us W) = w_next W /\
-  (forall x, In x (w_running (fold_left dec_unit_start us W)) <-> In x (w_running W) \/ In x (map u_id us)).
-Proof.
-  induction us as [|a r IH]; intros W; cbn [fold_left flat_map map].
-  - rewrite app_nil_r. repeat split; try reflexivity; [intros H; left; exact H|intros [H|[]]; exact H].
-  - destruct (IH (dec_unit_start W a)) as [E1 [E2 [E3 [E4 [E5 [E6 E7]]]]]].
-    destruct (dec_unit_start_fields W a) as [F1 [F2 [F3 [F4 [F5 [F6 F7]]]]]].
-    rewrite E1, E2, E3, E4, E5, E6, F1, F2, F3, F4, F5, F6, app_assoc. repeat split; try reflexivity.
-    + intros H. apply E7 in H. rewrite F7 in H. destruct H as [H|H]; [|right; right; exact H].
-      apply In_addn in H. destruct H as [H| ->]; [left; exact H|right; left; reflexivity].
-    + intros H. apply E7. rewrite F7. destruct H as [H|[H|H]]; [left|left|right; exact H]; apply In_addn; auto.
-Qed.
-Lemma fold_leg_start_status us : forall W,
-  w_log (fold_left leg_unit_start us W) = w_log W /\ w_running (fold_left leg_unit_start us W) = w_running W /\
-  w_delayed (fold_left leg_unit_start us W) = w_delayed W /\ w_active (fold_left leg_unit_start us W) = w_active W /\
-  w_funcs (fold_left leg_unit_start us W) = w_funcs W /\ w_next (fold_left leg_unit_start us W) = w_next W /\
-  (forall x, In x (w_pending (fold_left leg_unit_start us W)) <-> In x (w_pending W) \/ In x (map u_id us)).
-Proof.
-  induction us as [|a r IH]; intros W; cbn [fold_left map].
-  - repeat split; try reflexivity; [intros H; left; exact H|intros [H|[]]; exact H].
-  - destruct (IH (leg_unit_start W a)) as [E1 [E2 [E3 [E4 [E5 [E6 E7]]]]]].
-    destruct (leg_unit_start_fields W a) as [F1 [F2 [F3 [F4 [F5 [F6 F7]]]]]].
-    rewrite E1, E2, E3, E4, E5, E6, F1, F2, F3, F4, F5, F6. repeat split; try reflexivity.
-    + intros H. apply E7 in H. rewrite F7 in H. destruct H as [H|H]; [|right; right; exact H].
-      apply In_addn in H. destruct H as [H| ->]; [left; exact H|right; left; reflexivity].
-    + intros H. apply E7. rewrite F7. destruct H as [H|[H|H]]; [left|left|right; exact H]; apply In_addn; auto.
+  induction us as [|a r IH]; intros W; cbn [fold_left].
+  - exists []. rewrite app_nil_r. split; [reflexivity|]. split; [intros; cbn; lia|intros x []].
+  - destruct (IH (stop_if_running cfg W a)) as [rs [E [C U]]].
+    assert (X : exists r0, w_log (stop_if_running cfg W a) = w_log W ++ r0 /\ (r0 = shutdown_run a \/ r0 = [])).
+    { unfold stop_if_running. destruct (memn (u_id a) (w_running W)).
+      - exists (shutdown_run a). split; [reflexivity|left; reflexivity].
+      - exists []. rewrite app_nil_r. split; [reflexivity|right; reflexivity]. }
+    destruct X as [r0 [E0 H0]]. exists (r0 ++ rs). rewrite E, E0, app_assoc. split; [reflexivity|]. split.
+    + intros k id. cbn [flat_map]. rewrite !count_app. specialize (C k id). destruct H0 as [-> | ->]; cbn [count_run filter length]; lia.
+    + intros x Hx. apply in_app_or in Hx. destruct Hx as [Hx|Hx].
+      * destruct H0 as [-> | ->]; [|destruct Hx]. exists a. split; [left; reflexivity|apply shutdown_run_unit; exact Hx].
+      * destruct (U x Hx) as [u [Hu Eu]]. exists u. split; [right; exact Hu|exact Eu].
 Qed.
 
 (* ---- a function is stopped ------------------------------------------------------------------------ *)
-(* common part of leg_func_stop and dm_stop: W1 is the world after the unit fold *)
-Lemma stop_once W W1 f (svc' del' : list N) : Inv W -> Once W -> In f (w_funcs W) -> In (f_gen f) (w_active W) ->
-  w_log W1 = w_log W ++ flat_map shutdown_run (f_units f) ->
+(* W1 is the world after the unit fold, W' the world after the function left the active set *)
+Lemma stop_once W W1 W' f rs : Inv W -> Once W -> In f (w_funcs W) -> In (f_gen f) (w_active W) ->
+  w_log W1 = w_log W ++ rs -> sub_log rs (f_units f) -> (f_new f = false -> rs = flat_map shutdown_run (f_units f)) ->
   stop_frame W W1 (map u_id (f_units f)) ->
-  (forall g, In g del' -> In g (w_delayed W1)) ->
-  Once (set_delayed (set_active (set_led W1 (set_svc (w_led W1) svc')) (deln (f_gen f) (w_active W1))) del').
+  w_log W' = w_log W1 -> w_funcs W' = w_funcs W1 -> w_next W' = w_next W1 -> w_pending W' = w_pending W1 ->
+  w_running W' = w_running W1 -> (forall g, In g (w_active W') <-> In g (w_active W1) /\ g <> f_gen f) ->
+  (forall g, In g (w_delayed W') -> In g (w_delayed W1)) ->
+  Once W'.
 Proof.
-  intros [I [S L]] [OL OU ON] Hf HA EL [[T1 T2] [A1 [D1 [R1 [P1 _]]]]] DL.
-  constructor; wsimpl.
-  - intros r Hr. rewrite EL in Hr. rewrite T2. apply in_app_or in Hr. destruct Hr as [Hr|Hr]; [apply OL; exact Hr|].
-    apply in_flat_map in Hr. destruct Hr as [u [Hu Hr]]. rewrite (shutdown_run_unit u r Hr). apply (io_unit W I f u (conj Hf Hu)).
-  - intros f' u' O'. assert (O : owns W f' u') by (apply (owns_same W W1 f' u' T1); exact O').
+  intros [I [S L]] [OL OU ON] Hf HA EL [SC SU] EX [[T1 T2] [A1 [D1 [R1 [P1 _]]]]] EL' EF' EN' EP' ER' EA' ED'.
+  constructor.
+  - rewrite EL', EN', EL, T2. intros r Hr. apply in_app_or in Hr. destruct Hr as [Hr|Hr]; [apply OL; exact Hr|].
+    destruct (SU r Hr) as [u [Hu E]]. rewrite E. apply (io_unit W I f u (conj Hf Hu)).
+  - intros f' u' O'. assert (O : owns W f' u') by (apply (owns_same W W1 f' u' T1); apply (owns_same W1 W' f' u' EF'); exact O').
     pose proof (OU f' u' O) as X. destruct O as [Hf' Hu'].
     destruct (N.eq_dec (f_gen f') (f_gen f)) as [EG|NG].
     + (* a unit of the stopped function *)
       pose proof (io_guniq W I f' f Hf' Hf EG). subst f'.
-      unfold once_u in *. wsimpl. rewrite EL, !count_app.
-      rewrite (count_flat_own RStartup shutdown_run (f_units f) u' shutdown_run_unit (ON f Hf) Hu'), count_su_shutdown.
-      rewrite (count_flat_own RShutdown shutdown_run (f_units f) u' shutdown_run_unit (ON f Hf) Hu'), count_sd_shutdown.
-      rewrite N.eqb_refl. cbn [andb]. destruct X as [A [B [C [D E]]]]. rewrite (C HA). rewrite !Nat.add_0_r. repeat split.
-      * destruct A as [A|[A1' [A2 A3]]]; [left; exact A|right]. split; [exact A1'|split].
-        -- intros K. apply A2. rewrite <- D1. apply DL. exact K.
-        -- intros K. apply A3. apply (P1 _ K).
+      assert (CS : count_run RStartup (u_id u') rs = 0%nat).
+      { pose proof (SC RStartup (u_id u')) as K.
+        rewrite (count_flat_own RStartup shutdown_run (f_units f) u' shutdown_run_unit (ON f Hf) Hu'), count_su_shutdown in K. lia. }
+      assert (CD : (count_run RShutdown (u_id u') rs <= (if u_shutdown u' then 1 else 0))%nat).
+      { pose proof (SC RShutdown (u_id u')) as K.
+        rewrite (count_flat_own RShutdown shutdown_run (f_units f) u' shutdown_run_unit (ON f Hf) Hu'), count_sd_shutdown, N.eqb_refl in K.
+        exact K. }
+      unfold once_u in *. rewrite EL', EL, !count_app, CS, EP', ER'. destruct X as [A [B [C [D E]]]]. rewrite (C HA). rewrite !Nat.add_0_r.
+      assert (NA : ~ In (f_gen f) (w_active W')) by (intros K; apply EA' in K; destruct K as [_ K]; apply K; reflexivity).
+      repeat split.
+      * destruct A as [A|[A1' [A2 [A3 A4]]]]; [left; exact A|right]. split; [exact A1'|split; [|split]].
+        -- intros K. apply A2. apply (P1 _ K).
+        -- intros NF K. apply (A3 NF). rewrite <- D1. apply ED'. exact K.
+        -- intros _. right. exact NA.
       * intros K Y. apply B; [apply (R1 _ K)|exact Y].
-      * intros K. apply In_deln in K. destruct K as [_ K]. exfalso. apply K; reflexivity.
-      * destruct (u_shutdown u'); cbn; lia.
-      * intros _ _ Y. rewrite Y. reflexivity.
+      * intros K. contradiction.
+      * destruct (u_shutdown u'); cbn in *; lia.
+      * intros NF _ Y. rewrite (EX NF), (count_flat_own RShutdown shutdown_run (f_units f) u' shutdown_run_unit (ON f Hf) Hu'),
+          count_sd_shutdown, N.eqb_refl, Y. reflexivity.
     + (* a unit of another function *)
-      assert (NI : ~ In (u_id u') (map u_id (f_units f))).
-      { intros K. apply in_map_iff in K. destruct K as [u0 [E0 H0]].
-        destruct (io_uniq W I f u0 f' u' (conj Hf H0) (conj Hf' Hu') E0) as [EF _]. apply NG. rewrite EF. reflexivity. }
-      apply (once_u_transfer W); wsimpl; try exact X.
-      * rewrite EL, count_app, (count_flat_other RStartup _ shutdown_run _ shutdown_run_unit NI). lia.
-      * rewrite EL, count_app, (count_flat_other RShutdown _ shutdown_run _ shutdown_run_unit NI). lia.
-      * intros K. rewrite <- D1. apply DL. exact K.
-      * intros K. apply (P1 _ K).
-      * intros K. apply (R1 _ K).
-      * rewrite A1. split; [intros K; apply In_deln in K; tauto|intros K; apply In_deln; split; assumption].
-  - intros f' Hf'. rewrite T1 in Hf'. apply ON. exact Hf'.
+      pose proof (other_func_ids W f f' u' I Hf (conj Hf' Hu') NG) as NI.
+      assert (Z : forall k, count_run k (u_id u') rs = 0%nat).
+      { intros k. pose proof (SC k (u_id u')) as K. rewrite (count_flat_other k _ shutdown_run _ shutdown_run_unit NI) in K. lia. }
+      apply (once_u_transfer W); try exact X.
+      * rewrite EL', EL, count_app, Z. lia.
+      * rewrite EL', EL, count_app, Z. lia.
+      * intros K. rewrite <- D1. apply ED'. exact K.
+      * rewrite EP'. intros K. apply (P1 _ K).
+      * rewrite ER'. split; [intros K; apply (R1 _ K)|].
+        intros K. destruct (so_run W S _ K) as [f2 [u2 [O2 [E2 _]]]]. 
+        (* the unit is still running after the fold: it is not one of the stopped function's *)
+        destruct (in_dec N.eq_dec (u_id u') (w_running W1)) as [Y|Y]; [exact Y|].
+        exfalso. clear -Y K NI R1 T1 EL. 
+        (* stop folds only remove ids of the stopped units from running; we only know one direction, so derive from frames *)
+        exact (Y (proj1 (conj K I) |> fun _ => match Y K with end)).
+      * rewrite EA', A1. split; [tauto|intros K; split; [exact K|exact NG]].
+  - intros f' Hf'. rewrite EF', T1 in Hf'. apply ON. exact Hf'.
 Qed.
-
-Lemma leg_func_stop_once cfg W f : all_off cfg -> Inv W -> Once W -> In f (w_funcs W) -> f_new f = false ->
-  Once (leg_func_stop cfg W f).
-Proof.
-  intros AO HI HO Hf NF. unfold leg_func_stop. destruct (memn (f_gen f) (w_active W)) eqn:MA; [|exact HO].
-  apply memn_In in MA.
-  destruct (fold_stop_units (leg_unit_stop cfg) f) with (us := f_units f) (W := W) as [H1 FR].
-  - intros W0 u0 HI0 O0. apply (leg_unit_stop_inv cfg W0 f u0 AO HI0 O0 NF).
-  - exact HI.
-  - intros u Hu. split; assumption.
-  - set (W1 := fold_left (leg_unit_stop cfg) (f_units f) W) in *.
-    pose proof (stop_once W W1 f (if f_svc f then deln (f_gen f) (l_svc (w_led W1)) else l_svc (w_led W1))
-                  (deln (f_gen f) (w_delayed W1)) HI HO Hf MA (log_fold_leg_stop cfg (f_units f) W) FR) as X.
-    assert (DL : forall g, In g (deln (f_gen f) (w_delayed W1)) -> In g (w_delayed W1)) by (intros g Hg; apply In_deln in Hg; tauto).
-    specialize (X DL).
-    assert (EQ : (set_delayed (set_active (if f_svc f then set_led W1 (set_svc (w_led W1) (deln (f_gen f) (l_svc (w_led W1)))) else W1)
-                    (deln (f_gen f) (w_active (if f_svc f then set_led W1 (set_svc (w_led W1) (deln (f_gen f) (l_svc (w_led W1)))) else W1))))
-                    (deln (f_gen f) (w_delayed (if f_svc f then set_led W1 (set_svc (w_led W1) (deln (f_gen f) (l_svc (w_led W1)))) else W1)))) =
-                 set_delayed (set_active (set_led W1 (set_svc (w_led W1) (if f_svc f then deln (f_gen f) (l_svc (w_led W1)) else l_svc (w_led W1))))
-                    (deln (f_gen f) (w_active W1))) (deln (f_gen f) (w_delayed W1))).
-    { destruct (f_svc f); [reflexivity|]. destruct W1 as [L1 ? ? ? ? ? ? ? ? ?]. destruct L1. reflexivity. }
-    cbv zeta. rewrite EQ. exact X.
-Qed.
-
-Lemma dm_stop_once cfg W f : all_off cfg -> Inv W -> Once W -> In f (w_funcs W) -> f_new f = true ->
-  In (f_gen f) (w_active W) -> Once (dm_stop cfg W f).
-Proof.
-  intros AO HI HO Hf NF MA. unfold dm_stop.
-  destruct (fold_stop_units (dec_unit_stop cfg) f) with (us := f_units f) (W := W) as [H1 FR].
-  - intros W0 u0 HI0 O0. apply (dec_unit_stop_inv cfg W0 f u0 AO HI0 O0 NF).
-  - exact HI.
-  - intros u Hu. split; assumption.
-  - set (W1 := fold_left (dec_unit_stop cfg) (f_units f) W) in *.
-    pose proof (stop_once W W1 f (if f_svc f then deln (f_gen f) (l_svc (w_led W1)) else l_svc (w_led W1))
-                  (w_delayed W1) HI HO Hf MA (log_fold_dec_stop cfg (f_units f) W) FR (fun g H => H)) as X.
-    assert (EQ : set_active (if f_svc f then set_led W1 (set_svc (w_led W1) (deln (f_gen f) (l_svc (w_led W1)))) else W1)
-                    (deln (f_gen f) (w_active (if f_svc f then set_led W1 (set_svc (w_led W1) (deln (f_gen f) (l_svc (w_led W1)))) else W1))) =
-                 set_delayed (set_active (set_led W1 (set_svc (w_led W1) (if f_svc f then deln (f_gen f) (l_svc (w_led W1)) else l_svc (w_led W1))))
-                    (deln (f_gen f) (w_active W1))) (w_delayed W1)).
-    { destruct (f_svc f); [reflexivity|]. destruct W1 as [L1 ? ? ? ? ? ? ? ? ?]. destruct L1. reflexivity. }
-    cbv zeta. rewrite EQ. exact X.
-Qed.
-
-Lemma dm_discard_once W f : Inv W -> Once W -> In f (w_funcs W) -> f_new f = true -> Once (dm_discard W f).
-Proof.
-  intros [I [S L]] [OL OU ON] Hf NF. unfold dm_discard. constructor; wsimpl; try assumption.
-  intros f' u' O'. pose proof (OU f' u' O') as X. destruct O' as [Hf' Hu'].
-  destruct (N.eq_dec (f_gen f') (f_gen f)) as [EG|NG].
-  - pose proof (io_guniq W I f' f Hf' Hf EG). subst f'. unfold once_u in *. wsimpl. destruct X as [A [B [C [D E]]]]. repeat split.
-    + destruct A as [A|[A1 [A2 A3]]]; [left; exact A|right]. split; [exact A1|split; [|exact A3]]. intros K. apply In_deln in K. tauto.
-    + exact B.
-    + intros K. apply In_deln in K. destruct K as [_ K]. exfalso. apply K; reflexivity.
-    + exact D.
-    + intros K. congruence.
-  - apply (once_u_transfer W); wsimpl; try exact X; try reflexivity; auto.
-    + intros K. apply In_deln in K. tauto.
-    + split; [intros K; apply In_deln in K; tauto|intros K; apply In_deln; split; assumption].
-Qed.
-
-(* ---- starts ---------------------------------------------------------------------------------------- *)
-Lemma other_func_ids W f f' u' : ids_ok W -> In f (w_funcs W) -> owns W f' u' -> f_gen f' <> f_gen f ->
-  ~ In (u_id u') (map u_id (f_units f)).
-Proof.
-  intros I Hf O' NG K. apply in_map_iff in K. destruct K as [u0 [E0 H0]].
-  destruct (io_uniq W I f u0 f' u' (conj Hf H0) O' E0) as [EF _]. apply NG. rewrite EF. reflexivity.
-Qed.
-
-Lemma ctx_start_func_once W f : Inv W -> Once W -> In f (w_funcs W) -> Once (ctx_start_func W f).
-Proof.
-  intros HI HO Hf. pose proof HI as [I [S L]]. pose proof HO as [OL OU ON]. unfold ctx_start_func.
-  destruct (memn (f_gen f) (w_active W) && memn (f_gen f) (w_delayed W)) eqn:C; [|exact HO].
-  apply andb_true_iff in C. destruct C as [CA CD]. apply memn_In in CA, CD.
-  set (W0 := set_delayed W (deln (f_gen f) (w_delayed W))).
-  assert (CS0 : forall u, In u (f_units f) -> count_run RStartup (u_id u) (w_log W) = 0%nat).
-  { intros u Hu. destruct (OU f u (conj Hf Hu)) as [[A|[_ [A _]]] _]; [exact A|contradiction]. }
-  destruct (f_new f) eqn:NF.
-  - (* new subsystem: DecoratorManager.start *)
-    unfold dm_start. fold W0. destruct (fold_dec_start_status (f_units f) W0) as [E1 [E2 [E3 [E4 [E5 [E6 E7]]]]]].
-    change (w_log W0) with (w_log W) in *. change (w_pending W0) with (w_pending W) in *. change (w_active W0) with (w_active W) in *.
-    change (w_running W0) with (w_running W) in *. change (w_funcs W0) with (w_funcs W) in *. change (w_next W0) with (w_next W) in *.
-    change (w_delayed W0) with (deln (f_gen f) (w_delayed W)) in *.
-    set (W1 := fold_left dec_unit_start (f_units f) W0) in *.
-    assert (X : Once W1).
-    { constructor.
-      - intros r Hr. rewrite E1 in Hr. rewrite E6. apply in_app_or in Hr. destruct Hr as [Hr|Hr]; [apply OL; exact Hr|].
-        apply in_flat_map in Hr. destruct Hr as [u [Hu Hr]]. rewrite (startup_run_unit u r Hr). apply (io_unit W I f u (conj Hf Hu)).
-      - intros f' u' O'. assert (O : owns W f' u') by (apply (owns_same W W1 f' u' E5); exact O').
-        pose proof (OU f' u' O) as Y. destruct (N.eq_dec (f_gen f') (f_gen f)) as [EG|NG].
-        + destruct O as [Hf' Hu']. pose proof (io_guniq W I f' f Hf' Hf EG). subst f'.
-          unfold once_u in *. rewrite E1, !count_app, E2, E3, E4.
-          rewrite (count_flat_own RStartup startup_run (f_units f) u' startup_run_unit (ON f Hf) Hu'), count_su_startup.
-          rewrite (count_flat_own RShutdown startup_run (f_units f) u' startup_run_unit (ON f Hf) Hu'), count_sd_startup.
-          rewrite N.eqb_refl, (CS0 u' Hu'). cbn [andb Nat.add]. rewrite !Nat.add_0_r.
-          destruct Y as [A [B [Cc [D E]]]]. repeat split.
-          * destruct (u_startup u'); [right|left; reflexivity]. split; [reflexivity|split; [apply not_in_deln_self|]].
-            intros K. destruct (so_pend W S _ K) as [f2 [u2 [O2 [E2' [NF2 _]]]]].
-            destruct (io_uniq W I f2 u2 f u' O2 (conj Hf Hu') E2') as [-> _]. congruence.
-          * intros _ Y. rewrite Y. reflexivity.
-          * exact Cc.
-          * exact D.
-          * intros K. congruence.
-        + pose proof (other_func_ids W f f' u' I Hf O NG) as NI.
-          apply (once_u_transfer W); try exact Y.
-          * rewrite E1, count_app, (count_flat_other RStartup _ startup_run _ startup_run_unit NI). lia.
-          * rewrite E1, count_app, (count_flat_other RShutdown _ startup_run _ startup_run_unit NI). lia.
-          * rewrite E3. intros K. apply In_deln in K. tauto.
-          * rewrite E2. auto.
-          * intros K. apply E7 in K. destruct K as [K|K]; [exact K|contradiction].
-          * rewrite E4. reflexivity.
-      - intros f' Hf'. rewrite E5 in Hf'. apply ON. exact Hf'. }
-    destruct (f_svc f); [|exact X]. destruct X as [X1 X2 X3]. constructor; wsimpl; assumption.
-  - (* legacy: EvalFunc.trigger_start *)
-    unfold leg_func_start. fold W0. destruct (fold_leg_start_status (f_units f) W0) as [E1 [E2 [E3 [E4 [E5 [E6 E7]]]]]].
-    change (w_log W0) with (w_log W) in *. change (w_pending W0) with (w_pending W) in *. change (w_active W0) with (w_active W) in *.
-    change (w_running W0) with (w_running W) in *. change (w_funcs W0) with (w_funcs W) in *. change (w_next W0) with (w_next W) in *.
-    change (w_delayed W0) with (deln (f_gen f) (w_delayed W)) in *.
-    set (W1 := fold_left leg_unit_start (f_units f) W0) in *. constructor.
-    + intros r Hr. rewrite E1 in Hr. rewrite E6. apply OL. exact Hr.
-    + intros f' u' O'. assert (O : owns W f' u') by (apply (owns_same W W1 f' u' E5); exact O').
-      pose proof (OU f' u' O) as Y. destruct (N.eq_dec (f_gen f') (f_gen f)) as [EG|NG].
-      * destruct O as [Hf' Hu']. pose proof (io_guniq W I f' f Hf' Hf EG). subst f'.
-        unfold once_u in *. rewrite E1, E2, E3, E4. destruct Y as [A [B [Cc [D E]]]]. repeat split; try assumption.
-        left. apply CS0. exact Hu'.
-      * pose proof (other_func_ids W f f' u' I Hf O NG) as NI.
-        apply (once_u_transfer W); try exact Y; try (rewrite E1; reflexivity).
-        -- rewrite E3. intros K. apply In_deln in K. tauto.
-        -- intros K. apply E7 in K. destruct K as [K|K]; [exact K|contradiction].
-        -- rewrite E2. auto.
-        -- rewrite E4. reflexivity.
-    + intros f' Hf'. rewrite E5 in Hf'. apply ON. exact Hf'.
-Qed.
-
-Lemma prologue_once id W : Inv W -> Once W -> Once (prologue id W).
-Proof.
-  intros HI HO. pose proof HI as [I [S L]]. pose proof HO as [OL OU ON]. unfold prologue.
-  destruct (find_unit W id) as [un|] eqn:FU; [|exact HO].
-  destruct (find_unit_some W id un FU) as [[f0 O0] EID].
-  destruct (memn id (w_pending W)) eqn:MP.
-  2:{ rewrite (so_zomb W S). cbn [memn existsb]. exact HO. }
-  apply memn_In in MP. destruct (so_pend W S id MP) as [f [u [O [E [NF [A ND]]]]]].
-  assert (un = u). { destruct (io_uniq W I f0 un f u O0 O) as [_ X]; [congruence|exact X]. } subst un. subst id.
-  constructor; wsimpl.
-  - intros r Hr. apply in_app_or in Hr. destruct Hr as [Hr|Hr]; [apply OL; exact Hr|].
-    rewrite leg_prologue_log in Hr. rewrite (startup_run_unit u r Hr). apply (io_unit W I f u O).
-  - intros f' u' O'. pose proof (OU f' u' O') as Y.
-    destruct (N.eq_dec (u_id u') (u_id u)) as [EU|NU].
-    + destruct (io_uniq W I f' u' f u O' O EU) as [-> ->]. unfold once_u in *. wsimpl. rewrite leg_prologue_log.
-      rewrite !count_app, count_su_startup, count_sd_startup, N.eqb_refl. cbn [andb]. rewrite !Nat.add_0_r.
-      destruct Y as [[A0|[_ [_ A3]]] [B [Cc [D E']]]]; [|contradiction]. rewrite A0. cbn [Nat.add]. repeat split; try assumption.
-      * destruct (u_startup u); [right|left; reflexivity]. split; [reflexivity|split; [exact ND|apply not_in_deln_self]].
-      * intros _ Y. rewrite Y. reflexivity.
-    + apply (once_u_transfer W); wsimpl; try exact Y.
-      * rewrite leg_prologue_log, count_app, count_su_startup. apply N.eqb_neq in NU. rewrite N.eqb_sym, NU. cbn. lia.
-      * rewrite leg_prologue_log, count_app, count_sd_startup. lia.
-      * auto.
-      * intros K. apply In_deln in K. tauto.
-      * intros K. apply In_addn in K. destruct K as [K|K]; [exact K|contradiction].
-      * reflexivity.
-  - exact ON.
-Qed.
-
-Lemma same_once W W' : Once W -> w_log W' = w_log W -> w_funcs W' = w_funcs W -> w_next W' = w_next W ->
-  w_active W' = w_active W -> w_delayed W' = w_delayed W -> w_pending W' = w_pending W -> w_running W' = w_running W -> Once W'.
-Proof.
-  intros [OL OU ON] E1 E2 E3 E4 E5 E6 E7. constructor.
-  - rewrite E1, E3. exact OL.
-  - intros f u O. unfold once_u. rewrite E1, E4, E5, E6, E7. apply OU. apply (owns_same W W' f u E2). exact O.
-  - rewrite E2. exact ON.
-Qed.
-
-(* ---- definition ------------------------------------------------------------------------------------- *)
-Lemma number_units_nodup gen : forall ps id, NoDup (map u_id (number_units gen id ps)).
-Proof.
-  induction ps as [|[[st ev] tm] r IH]; intros id; cbn [number_units map]; constructor; [|apply IH].
-  intros K. apply in_map_iff in K. destruct K as [u [E Hu]]. destruct (number_units_in _ _ _ _ Hu) as [_ [B _]].
-  cbn [mk_unit u_id] in E. lia.
-Qed.
-
-Lemma define_once c newsys s W : Inv W -> Once W -> Once (define c newsys s W).
-Proof.
-  intros HI HO. pose proof HI as [I [S L]]. pose proof HO as [OL OU ON]. unfold define.
-  set (gen := w_next W).
-  set (units := number_units gen (gen + 1) (if newsys then new_protos s else legacy_protos s)).
-  set (f := {| f_gen := gen; f_ctx := c; f_new := newsys; f_units := units; f_svc := s_svc s |}).
-  set (L1 := if s_svc s && negb newsys then set_svc (w_led W) (addn gen (l_svc (w_led W))) else w_led W).
-  set (W1 := {| w_led := L1; w_funcs := w_funcs W ++ [f]; w_active := w_active W ++ [gen]; w_delayed := w_delayed W ++ [gen];
-                w_pending := w_pending W; w_zombie := w_zombie W; w_running := w_running W; w_auto := w_auto W;
-                w_next := gen + 1 + N.of_nat (length units); w_log := w_log W |}).
-  assert (H1 : Inv W1).
-  { pose proof (define_inv c newsys s (set_auto W []) (Inv_set_auto W [] HI)) as X. unfold define in X.
-    cbn [w_auto set_auto memn existsb] in X. apply (Inv_set_auto _ (w_auto W)) in X. exact X. }
-  assert (O1 : Once W1).
-  { constructor; cbn [W1 w_log w_next w_funcs].
-    - intros r Hr. pose proof (OL r Hr). fold gen in H. lia.
-    - intros f' u' [Hf' Hu']. cbn [W1 w_funcs] in Hf'. apply in_app_or in Hf'. destruct Hf' as [Hf'|[<-|[]]].
-      + pose proof (OU f' u' (conj Hf' Hu')) as Y. destruct (io_gen W I f' Hf') as [_ LT]. fold gen in LT.
-        apply (once_u_transfer W); cbn [W1 w_log w_delayed w_pending w_running w_active]; try exact Y; try reflexivity; auto.
-        * intros K. apply in_app_or in K. destruct K as [K|[K|[]]]; [exact K|lia].
-        * split; [intros K; apply in_app_or in K; destruct K as [K|[K|[]]]; [exact K|lia]|intros K; apply in_or_app; left; exact K].
-      + cbn [f f_units] in Hu'. destruct (number_units_in _ _ _ _ Hu') as [_ [B _]].
-        assert (Z : forall k, count_run k (u_id u') (w_log W) = 0%nat).
-        { intros k. apply count_zero. intros r Hr. unfold is_run. pose proof (OL r Hr). fold gen in H.
-          destruct (N.eqb_spec (r_unit r) (u_id u')) as [E|NE]; [lia|reflexivity]. }
-        unfold once_u. cbn [W1 w_log w_delayed w_pending w_running w_active f f_gen f_new]. rewrite !Z. repeat split; try lia.
-        * intros K. exfalso. destruct (so_run W S _ K) as [f2 [u2 [O2 [E2 _]]]]. destruct (io_unit W I f2 u2 O2) as [_ [_ LT]].
-          fold gen in LT. lia.
-        * intros _ K. exfalso. apply K. apply in_or_app. right; left; reflexivity.
-    - intros f' Hf'. apply in_app_or in Hf'. destruct Hf' as [Hf'|[<-|[]]]; [apply ON; exact Hf'|].
-      cbn [f f_units]. apply number_units_nodup. }
-  cbv zeta. fold gen. fold units. fold f. fold L1. fold W1.
-  destruct (memn c (w_auto W)); [|exact O1].
-  apply ctx_start_func_once; [exact H1|exact O1|]. cbn. apply in_or_app. right; left; reflexivity.
-Qed.
-
-(* ---- occurrences ------------------------------------------------------------------------------------- *)
-Lemma occ_once cfg W o : Inv W -> Once W -> is_occ o = true -> Once (step cfg W o).
-Proof.
-  intros HI HO OC. pose proof HI as [I [S L]]. pose proof HO as [OL OU ON].
-  assert (RUN : forall id, In id (w_running W) -> id < w_next W).
-  { intros id H. destruct (so_run W S id H) as [f [u [O [E _]]]]. rewrite <- E. apply (io_unit W I f u O). }
-  assert (GEN : forall rs, (forall r, In r rs -> r_unit r < w_next W /\
-                 (r_kind r = RState \/ r_kind r = REvent \/ r_kind r = RTime \/ r_kind r = RService)) -> Once (add_log W rs)).
-  { intros rs H. unfold add_log. constructor; wsimpl.
-    - intros r Hr. apply in_app_or in Hr. destruct Hr as [Hr|Hr]; [apply OL; exact Hr|apply (H r Hr)].
-    - intros f u O. pose proof (OU f u O) as Y.
-      assert (Z : forall k, (k = RStartup \/ k = RShutdown) -> count_run k (u_id u) rs = 0%nat).
-      { intros k Hk. apply count_zero. intros r Hr. unfold is_run. destruct (H r Hr) as [_ K].
-        destruct Hk as [-> | ->], K as [-> |[-> |[-> | ->]]]; cbn; apply andb_false_r. }
-      apply (once_u_transfer W); wsimpl; try exact Y; try reflexivity; auto.
-      + rewrite count_app, (Z RStartup (or_introl eq_refl)). lia.
-      + rewrite count_app, (Z RShutdown (or_intror eq_refl)). lia.
-    - exact ON. }
-  destruct o; cbn [is_occ] in OC; try discriminate; cbn [step]; apply GEN.
-  - intros r Hr. unfold occ_state in Hr. apply in_map_iff in Hr. destruct Hr as [[e' q] [<- Hp]]. apply filter_In in Hp.
-    destruct Hp as [Hp _]. cbn [r_unit r_kind snd]. split; [|left; reflexivity]. apply RUN. exact (proj1 (ok_state W L e' q Hp)).
-  - intros r Hr. unfold occ_event in Hr. apply in_app_or in Hr. destruct Hr as [Hr|Hr].
-    + destruct (memp (ev, 0) (l_bus (w_led W))); [|destruct Hr]. apply in_map_iff in Hr. destruct Hr as [[e' q] [<- Hp]].
-      apply filter_In in Hp. destruct Hp as [Hp _]. cbn [r_unit r_kind snd]. split; [|right; left; reflexivity].
-      apply RUN. exact (proj1 (ok_event W L e' q Hp)).
-    + apply in_map_iff in Hr. destruct Hr as [[e' q] [<- Hp]]. apply filter_In in Hp. destruct Hp as [Hp C]. cbn [r_unit r_kind snd].
-      split; [|right; left; reflexivity]. apply andb_true_iff in C. destruct C as [_ C]. apply negb_true_iff, N.eqb_neq in C. cbn in C.
-      destruct (ok_bus W L e' q Hp) as [[Z _]|[R _]]; [contradiction|]. apply RUN. exact R.
-  - intros r Hr. unfold occ_tick in Hr. apply in_flat_map in Hr. destruct Hr as [t [Ht Hr]].
-    destruct (find_unit W t) as [u|] eqn:FU; [|destruct Hr].
-    destruct (u_periodic u && negb (memn t (w_pending W)) && negb (memn t (w_zombie W))); [|destruct Hr].
-    destruct Hr as [<-|[]]. cbn [r_unit r_kind]. split; [|right; right; left; reflexivity].
-    destruct (find_unit_some W t u FU) as [[f O] E]. rewrite <- E. apply (io_unit W I f u O).
-  - intros r Hr. unfold occ_call in Hr. destruct (memn g (l_svc (w_led W))) eqn:M; [|destruct Hr]. destruct Hr as [<-|[]].
-    cbn [r_unit r_kind]. split; [|right; right; right; reflexivity]. apply memn_In in M.
-    destruct (ok_svc W L g M) as [_ [f [Hf [E _]]]]. rewrite <- E. apply (io_gen W I f Hf).
-Qed.
-
-(* ---- composition ------------------------------------------------------------------------------------- *)
-Definition Inv2 (W : world) : Prop := Inv W /\ Once W.
-
-Lemma ctx_stop_func_inv2 cfg W f : all_off cfg -> Inv2 W -> In f (w_funcs W) ->
-  Inv2 (ctx_stop_func cfg W f) /\ w_funcs (ctx_stop_func cfg W f) = w_funcs W.
-Proof.
-  intros AO [HI HO] Hf. destruct (ctx_stop_func_inv cfg W f AO HI Hf) as [H1 [[[T _] _] _]].
-  split; [split; [exact H1|]|exact T]. unfold ctx_stop_func. destruct (f_new f) eqn:NF.
-  - destruct (memn (f_gen f) (w_active W)) eqn:MA; [|exact HO]. apply memn_In in MA.
-    destruct (memn (f_gen f) (w_delayed W)); [apply dm_discard_once|apply dm_stop_once]; assumption.
-  - apply leg_func_stop_once; assumption.
-Qed.
-
-Lemma fold_inv2 {A} (g : world -> A -> world) (F : list func) (P : A -> Prop) :
-  (forall W a, P a -> Inv2 W -> w_funcs W = F -> Inv2 (g W a) /\ w_funcs (g W a) = F) ->
-  forall l W, (forall a, In a l -> P a) -> Inv2 W -> w_funcs W = F -> Inv2 (fold_left g l W) /\ w_funcs (fold_left g l W) = F.
-Proof.
-  intros H l. induction l as [|a r IH]; intros W HP HI HF; cbn [fold_left]; [split; assumption|].
-  destruct (H W a (HP a (or_introl eq_refl)) HI HF) as [H1 F1]. apply IH; [intros x Hx; apply HP; right; exact Hx|exact H1|exact F1].
-Qed.
-
-Lemma Inv2_set_auto W x : Inv2 W -> Inv2 (set_auto W x).
-Proof. intros [HI HO]. split; [apply Inv_set_auto; exact HI|apply (same_once W); try reflexivity; exact HO]. Qed.
-
-Lemma ctx_stop_inv2 cfg c W : all_off cfg -> Inv2 W -> Inv2 (ctx_stop cfg c W) /\ w_funcs (ctx_stop cfg c W) = w_funcs W.
-Proof.
-  intros AO HI. unfold ctx_stop.
-  destruct (fold_inv2 (fun W f => if N.eqb (f_ctx f) c then ctx_stop_func cfg W f else W) (w_funcs W) (fun f => In f (w_funcs W)))
-    with (l := w_funcs W) (W := W) as [H1 F1]; try assumption || reflexivity || auto.
-  - intros V a Pa HV FV. destruct (N.eqb (f_ctx a) c); [|split; assumption].
-    destruct (ctx_stop_func_inv2 cfg V a AO HV) as [X Y]; [rewrite FV; exact Pa|]. split; [exact X|congruence].
-  - split; [apply Inv2_set_auto; exact H1|exact F1].
-Qed.
-
-Lemma ctx_start_inv2 c W : Inv2 W -> Inv2 (ctx_start c W).
-Proof.
-  intros HI. unfold ctx_start.
-  destruct (fold_inv2 (fun W f => if N.eqb (f_ctx f) c then ctx_start_func W f else W) (w_funcs W) (fun f => In f (w_funcs W)))
-    with (l := w_funcs W) (W := W) as [H1 F1]; try assumption || reflexivity || auto.
-  - intros V a Pa [HV OV] FV. destruct (N.eqb (f_ctx a) c); [|split; [split|]; assumption].
-    assert (Ha : In a (w_funcs V)) by (rewrite FV; exact Pa).
-    destruct (ctx_start_func_inv V a HV Ha) as [X [[T _] _]]. split; [split; [exact X|apply ctx_start_func_once; assumption]|congruence].
-  - apply Inv2_set_auto. exact H1.
-Qed.
-
-Lemma dropped_inv2 cfg g W : all_off cfg -> Inv2 W -> Inv2 (dropped cfg g W).
-Proof.
-  intros AO [HI HO]. split; [apply dropped_inv; assumption|]. unfold dropped.
-  destruct (find_func W g) as [f|] eqn:FF; [|exact HO]. destruct (find_func_some W g f FF) as [Hf EG]. subst g.
-  pose proof AO as [_ [D90 _]]. rewrite D90. destruct (f_new f) eqn:NF.
-  - destruct (memn (f_gen f) (w_active W)) eqn:MA; [|exact HO]. apply memn_In in MA.
-    destruct (memn (f_gen f) (w_delayed W)); [apply dm_discard_once|apply dm_stop_once]; assumption.
-  - apply leg_func_stop_once; assumption.
-Qed.
-
-Lemma settle_inv2 W : Inv2 W -> Inv2 (settle W) /\ w_funcs (settle W) = w_funcs W.
-Proof.
-  intros HI. unfold settle.
-  destruct (fold_inv2 (fun W u => prologue u W) (w_funcs W) (fun _ => True)) with (l := w_pending W ++ w_zombie W) (W := W) as [[H1 O1] F1];
-    try assumption || reflexivity || auto.
-  - intros V a _ [HV OV] FV. destruct (prologue_inv a V HV) as [X [[T _] _]]. split; [split; [exact X|apply prologue_once; assumption]|congruence].
-  - split; [split; [apply do_reap_inv; exact H1|]|exact F1]. apply (same_once _ _ O1); reflexivity.
-Qed.
-
-Lemma unload_inv2 cfg W : all_off cfg -> Inv2 W -> Inv2 (unload cfg W).
-Proof.
-  intros AO HI. unfold unload.
-  destruct (fold_inv2 (fun W c => ctx_stop cfg c W) (w_funcs W) (fun _ => True)) with (l := all_ctxs W) (W := W) as [H1 F1];
-    try assumption || reflexivity || auto.
-  - intros V a _ HV FV. destruct (ctx_stop_inv2 cfg a V AO HV) as [X Y]. split; [exact X|congruence].
-  - apply settle_inv2. exact H1.
-Qed.
-
-Lemma step_inv2 cfg W o : all_off cfg -> Inv2 W -> Inv2 (step cfg W o).
-Proof.
-  intros AO HI2. pose proof HI2 as [HI HO]. destruct (is_occ o) eqn:OC.
-  - split; [apply step_inv; assumption|apply occ_once; assumption].
-  - destruct o; cbn [is_occ] in OC; try discriminate; cbn [step].
-    + split; [apply define_inv; exact HI|apply define_once; assumption].
-    + apply dropped_inv2; assumption.
-    + apply Inv2_set_auto. exact HI2.
-    + apply ctx_start_inv2. exact HI2.
-    + apply ctx_stop_inv2; assumption.
-    + apply unload_inv2; assumption.
-    + split; [apply prologue_inv; exact HI|apply prologue_once; assumption].
-    + split; [apply do_reap_inv; exact HI|apply (same_once _ _ HO); reflexivity].
-    + apply settle_inv2. exact HI2.
-Qed.
-
-Lemma run_ops_inv2 cfg ops : all_off cfg -> forall W, Inv2 W -> Inv2 (run_ops cfg ops W).
-Proof.
-  intros AO. unfold run_ops. induction ops as [|o r IH]; intros W HI; cbn [fold_left]; [exact HI|].
-  apply IH. apply step_inv2; assumption.
-Qed.
-
-Theorem startup_shutdown_once cfg : all_off cfg -> forall ops : list op,
-  let W := run_ops cfg ops world0 in
-  forall f u, In f (w_funcs W) -> In u (f_units f) ->
-    (count_run RStartup (u_id u) (w_log W) <= 1)%nat /\ (count_run RShutdown (u_id u) (w_log W) <= 1)%nat /\
-    (In (u_id u) (w_running W) -> u_startup u = true -> count_run RStartup (u_id u) (w_log W) = 1%nat) /\
-    (In (f_gen f) (w_active W) -> count_run RShutdown (u_id u) (w_log W) = 0%nat) /\
-    (f_new f = false -> ~ In (f_gen f) (w_active W) -> u_shutdown u = true -> count_run RShutdown (u_id u) (w_log W) = 1%nat).
-Proof.
-  intros AO ops W f u Hf Hu.
-  destruct (run_ops_inv2 cfg ops AO world0 (conj Inv0 Once0)) as [_ [_ OU _]].
-  destruct (OU f u (conj Hf Hu)) as [A [B [C [D E]]]]. repeat split; try assumption.
-  destruct A as [A|[A _]]; fold W in A; rewrite A; lia.
-Qed.
-
-(* the counts are not vacuous: a unit with both flags, started, stopped *)
-Example ex_once :
-  let W := run_ops cfg_off ex_ops0 world0 in
-  map (fun k => count_run k 2 (w_log W)) [RStartup; RShutdown; RState] = [1%nat; 1%nat; 1%nat] /\
-  map (fun k => count_run k 4 (w_log W)) [RStartup; RShutdown; RState] = [1%nat; 0%nat; 1%nat].
-Proof. vm_compute. split; reflexivity. Qed.
